@@ -671,7 +671,10 @@ def commute_timer(evs):
                 end = dec if dec is not None else k + 1
             if end is not None and end > k + 1:
                 inside = evs[k + 1:end]
-                moved = [x for x in inside if x[0] in ("timer.pop", "reset") or (x[0] == "submit" and x[2] == "thread")]
+                # what the deciding callback can see of a resumption is the branch's status, changed by `reset`
+                # (after the pop, outside the scheduler's lock): only resumptions whose reset lies in the window move
+                resets_in = {x[2] for x in inside if x[0] == "reset"}
+                moved = [x for x in inside if (x[0] == "timer.pop" and x[2] in resets_in) or x[0] == "reset" or (x[0] == "submit" and x[2] == "thread")]
                 if moved and all(x[2] != e[2] for x in moved if x[0] in ("timer.pop", "reset")):
                     rest = [x for x in inside if x not in moved]
                     evs[k:end] = moved + [e] + rest
@@ -694,7 +697,7 @@ def derive_par_actions(pevents):
     while i < len(evs):
         e = evs[i]
         t = e[1]
-        if e[0] in ("begin", "finish", "timer.pop", "exec.end", "cancel") and t > last_t:
+        if e[0] in ("begin", "finish", "timer.pop", "reset", "exec.end", "cancel") and t > last_t:
             acts.append(["tick", t - last_t])
             last_t = t
         if e[0] == "begin":
@@ -703,7 +706,10 @@ def derive_par_actions(pevents):
             acts.append(["finish", e[2]] + e[3:])
         elif e[0] == "cancel":
             acts.append(["cancel", e[2]])
-        elif e[0] == "timer.pop":
+        elif e[0] == "timer.pop" and any(f[0] == "reset" and f[2] == e[2] for f in evs[i + 1:next(
+                (q for q in range(i + 1, len(evs)) if evs[q][0] in ("timer.pop", "exec.end")), len(evs))]):
+            pass    # the resumption takes effect (status change) at its `reset`, emitted there
+        elif e[0] in ("timer.pop", "reset"):
             # look ahead: reset -> (submit by the timer thread | nothing more by it before a fatal) ; no reset: cannot resume
             # the refresh checkpoint of this resumption failed iff a `refresh.fail` follows before the timer thread's
             # next pop (whether the branch is submitted again is the model's business: not once the event is set)
